@@ -724,11 +724,42 @@ func rootIface(v ssa.Value) ssa.Value {
 
 func checkC06Ctx(r *Report, p *Prog) {
 	rule := "C06.ctx"
-	// role: the IdpAuthnRequest method that returns (*dsig.SigningContext, error)
-	var fn *ssa.Function
+	// role: the function that builds the IdP's signing context: the IdpAuthnRequest method that returns
+	// (*dsig.SigningContext, error), or a plain function with that result that an IdpAuthnRequest method calls (then the
+	// rule is read from that method, so that the IdP is still "req.IDP")
+	var fn, root *ssa.Function
 	for _, f := range p.modFns {
 		if f.Signature.Recv() != nil && isMethodOf(f, "IdpAuthnRequest") && p.InLibrary(f) && f.Signature.Results().Len() == 2 && typeIs(f.Signature.Results().At(0).Type(), "github.com/russellhaering/goxmldsig", "SigningContext") {
-			fn = f
+			fn, root = f, f
+		}
+	}
+	if fn == nil {
+		var cands []*ssa.Function
+		for _, f := range p.modFns {
+			if !p.InLibrary(f) || f.Pkg == nil || f.Pkg.Pkg.Path() != modPath || f.Signature.Results().Len() != 2 || !typeIs(f.Signature.Results().At(0).Type(), "github.com/russellhaering/goxmldsig", "SigningContext") {
+				continue
+			}
+			forIdP := false
+			for _, prm := range f.Params {
+				if typeIs(prm.Type(), modPath, "IdentityProvider") || typeIs(prm.Type(), modPath, "IdpAuthnRequest") {
+					forIdP = true
+				}
+			}
+			if forIdP {
+				cands = append(cands, f)
+			}
+		}
+		for _, cand := range cands {
+			for _, mth := range sortedFns(p, fnSet(p.modFns)) {
+				if root != nil || !p.InLibrary(mth) || mth.Signature.Recv() == nil || !isMethodOf(mth, "IdpAuthnRequest") {
+					continue
+				}
+				for _, hf := range helperRegion(p, mth, 2) {
+					if hf == cand {
+						fn, root = cand, mth
+					}
+				}
+			}
 		}
 	}
 	if fn == nil {
@@ -736,11 +767,17 @@ func checkC06Ctx(r *Report, p *Prog) {
 	}
 	a := NewAnalysis(p)
 	B := a.B
-	fc := a.Ctx(fn)
-	fc.ensureConds()
 	r.Fn(p.FnName(fn))
 	// the construction may be split over helpers (an IdentityProvider method building the context): one body
-	rg := NewRegion(p, fn, 2)
+	rg := NewRegion(p, root, 3)
+	fc := a.Ctx(fn)
+	for _, c := range rg.all {
+		if c.fn == fn {
+			fc = rg.Ctx(a, c)
+			break
+		}
+	}
+	fc.ensureConds()
 	// key / signer
 	okKey := false
 	for _, x := range rg.Calls(dsigPath + ".NewSigningContext") {
